@@ -129,6 +129,17 @@ FAMILIES = {
 
 def engine_check(prop, tier, level="model_checking", n_quick=240, n_thorough=2400, families=None, rep=None, finish=True):
     rep = rep or Report(prop, tier, level)
+    # ---- the exhaustive engine model: QMC.tla's operators with existentially quantified arguments ------------
+    mr = run_tlc("MC_QMC", "MC_QMC.cfg" if tier == "quick" else "MC_QMC_deep.cfg", workers=16, timeout=2400)
+    if not mr.ok:
+        if mr.invariant_violated:
+            inv = mr.invariant_violated[0]
+            owner = inv.split("_")[0]
+            if owner == prop or owner not in ("C03", "C04", "C05", "C11", "C12"):
+                rep.violation(f"model:{inv}", f"TLC: {inv} violated in MC_QMC.tla (the engine specification itself admits a bad state)", {"tlc": mr.out[-3000:]})
+        else:
+            rep.error(f"TLC failed on MC_QMC: {mr.out[-1500:]}")
+    rep.add(states=mr.distinct, transitions=mr.generated, engine_model_states=mr.distinct)
     n = n_quick if tier == "quick" else n_thorough
     fams = families or FAMILIES[prop]
     seeds = [(rep.seed * 1000 + i, fams[i % len(fams)]) for i in range(n)]
